@@ -680,6 +680,32 @@ fn w_descendant_fonts_cycle() -> bool {
     println!("Type0 font whose /DescendantFonts array (an indirect object) contains the font dictionary itself -> {:?}", short(f.map(|_| ())));
     false
 }
+fn w_ps_roll() -> bool {
+    let f = pdf::object::PsFunc::parse("{ 5 1 roll }").unwrap();
+    let mut out = [0.0f32; 0];
+    let r = f.exec(&[], &mut out);
+    println!("PostScript calculator `5 1 roll` on an empty stack -> {:?}", short(r));
+    let f = pdf::object::PsFunc::parse("{ 2 7 roll }").unwrap();
+    let mut out = [0.0f32; 2];
+    let r = f.exec(&[1.0, 2.0], &mut out);
+    println!("`1 2 2 7 roll` -> {:?} {:?}", short(r), out);
+    false
+}
+fn w_ps_parse() -> bool {
+    let r = pdf::object::PsFunc::parse("} add {");
+    println!("PostScript function text `}} add {{` -> {:?}", short(r.map(|_| ())));
+    false
+}
+fn w_sampled_short() -> bool {
+    use pdf::object::*;
+    let file = load(&[(5, "<< /FunctionType 0 /Domain [0 1] /Range [0 1] /Size [1000] /BitsPerSample 8 /Length 1 >>\nstream\nA\nendstream")]);
+    let r = file.resolver();
+    let f = match Function::from_primitive(pdf::primitive::Primitive::Reference(PlainRef { id: 5, gen: 0 }), &r) { Ok(f) => f, Err(e) => { println!("load failed: {}", e); return false; } };
+    let mut out = [0.0f32; 1];
+    let res = f.apply(&[0.9], &mut out);
+    println!("sampled function declaring 1000 samples with 1 byte of data, applied at 0.9 -> {:?}", short(res));
+    false
+}
 fn w_crypt_keylen() -> bool {
     let enc = "<< /Filter /Standard /V 2 /R 3 /Length 0 /P -1 /O (01234567890123456789012345678901) /U (01234567890123456789012345678901) >>";
     let data = mkpdf(&[(1, CATALOG), (2, PAGES), (3, PAGE), (9, enc)], "/Encrypt 9 0 R /ID [(abcdefghijklmnop) (abcdefghijklmnop)]");
@@ -730,6 +756,9 @@ fn main() {
         ("page_count_overflow", w_page_count_overflow),
         ("objstm_offset_overflow", w_objstm_offset_overflow),
         ("crypt_keylen", w_crypt_keylen),
+        ("ps_roll", w_ps_roll),
+        ("ps_parse", w_ps_parse),
+        ("sampled_short", w_sampled_short),
         ("jbig2_globals_cycle", w_jbig2_globals_cycle),
         ("descendant_fonts_cycle", w_descendant_fonts_cycle),
         ("xref_offset_overflow", w_xref_offset_overflow),
